@@ -38,9 +38,9 @@ ASSUMPTIONS = [
 REPORT_COUNTERS = ["cases", "controlled_schedules", "sweep_schedules", "double_preemption_schedules", "random_schedules",
                    "raw_races", "scheduling_points", "switches_forced", "lock_handoffs", "thread_outcomes_compared",
                    "post_run_probe_vectors", "scn_first_call", "scn_miss_same", "scn_miss_diff", "scn_next_chain",
-                   "scn_dependent", "scn_kwonly", "scn_after_failed_build", "calls_with_keywords", "programs_with_optional_positional", "line_preempted_functions", "three_thread_schedules", "timeouts"]
+                   "scn_dependent", "scn_kwonly", "scn_after_failed_build", "scn_callable_arg", "calls_with_keywords", "programs_with_optional_positional", "line_preempted_functions", "three_thread_schedules", "timeouts"]
 
-SCENARIOS = ["first_call", "miss_same", "miss_diff", "next_chain", "dependent", "kwonly", "after_failed_build"]
+SCENARIOS = ["first_call", "miss_same", "miss_diff", "next_chain", "dependent", "kwonly", "after_failed_build", "callable_arg"]
 STRATEGIES = ["sweep", "sweep", "double", "random", "raw"]
 
 
@@ -51,7 +51,7 @@ def plan(tier):
             "timeout_s": 1800 if tier == "quick" else 14000,
             "min": {"controlled_schedules": 2_000, "sweep_schedules": 1_000, "random_schedules": 200, "raw_races": 500,
                     "switches_forced": 1_500, "scn_first_call": 5, "scn_miss_same": 5, "scn_miss_diff": 5,
-                    "scn_next_chain": 5, "scn_dependent": 5, "scn_kwonly": 5, "scn_after_failed_build": 5, "calls_with_keywords": 15}}
+                    "scn_next_chain": 5, "scn_dependent": 5, "scn_kwonly": 5, "scn_after_failed_build": 5, "scn_callable_arg": 5, "calls_with_keywords": 15}}
 
 
 class TVF(PVF):
@@ -127,6 +127,16 @@ def gen_case(rng, params, idx):
     if scn == "kwonly" and rng.random() < 0.5:
         c1 = dict(c1, kw={})          # one thread passes keywords, the other none
     c2 = cg.call(rng, p_kw=pk)
+    if scn == "callable_arg":
+        # a method on Callable[[int], Any]: whether a function matches is worked out from the function's own annotations
+        # at call time; the functions passed return a mapping class made for this run, whose generic origin the
+        # library's (process-wide) table of generic handlers has never been asked about
+        spec["methods"] = [{"mid": 0, "pos": [{"n": "a0", "t": "object"}], "kw": [], "prio": 0, "kind": "leaf"},
+                           {"mid": 1, "pos": [{"n": "a0", "t": "object"}], "kw": [], "prio": -1, "kind": "leaf"},
+                           {"mid": 2, "pos": [{"n": "a0", "t": "int"}], "kw": [], "prio": 0, "kind": "leaf"}]
+        spec["npos"] = 1
+        c0 = c1 = c2 = {"pos": [["v", 0]], "kw": {}, "fn": True}
+        cg = gen.CallGen(spec, vals)
     spec.update(scenario=scn, strategy=strat, calls=[c0, c1, c2], warm=cg.call(rng, p_kw=pk),
                 probes=[cg.call(rng, p_kw=pk) for _ in range(6)], seed=rng.randrange(1 << 30),
                 sweep_stride=params["sweep_stride"], nrandom=params["random"], nraw=params["raw"])
@@ -137,6 +147,17 @@ LEAKS = []
 
 
 def _mk(spec, env):
+    if spec["scenario"] == "callable_arg":
+        import typing
+        prog = Program(spec, env=env, tag="c19", vf=TVF(), ann_overrides={0: {"a0": typing.Callable[[int], typing.Any]}})
+
+        class FreshMap(dict):
+            pass
+
+        def g(x: int) -> FreshMap[str, int]:
+            return FreshMap()
+        prog._g = g
+        return prog
     prog = Program(spec, env=env, tag="c19", vf=TVF())
     if spec["scenario"] == "after_failed_build":
         # history: an invalid method made the first build fail (in this, the harness thread); it was removed again,
@@ -168,6 +189,8 @@ def _mk(spec, env):
 
 def _body(prog, call):
     pos, kw, alt = prog.args(call)
+    if call.get("fn"):
+        pos = [prog._g]       # the function made for this run is the argument
 
     def run():
         prog.vf.reset(alt)
